@@ -603,7 +603,8 @@ def _len_inside_own_loop(body, bb, e):
             t = body.term(x)
             if t["k"] == "call" and last_seg(body.callee(t)) == "next" and body.succs[x]:
                 it = body.call_args(x)[0]
-                if flow.backward(body, it, lambda z: z[0] in ("var", "param") and z[1] == v, through_containers=False) is None:
+                if flow.backward(body, it, lambda z: (z[0] in ("var", "param") and z[1] == v) or
+                                 bounds._peel(body.expand_vars(strip_sites(z))) == vexpr, through_containers=False) is None:
                     continue
                 if flow.backward(body, it, lambda z: z[0] == "call" and last_seg(z[1]) in ("chain", "once", "repeat", "zip"),
                                  through_containers=False) is not None:
